@@ -16,6 +16,7 @@ import OFV.Proofs.C19MolOracle
 import OFV.Proofs.C19Phys
 import OFV.Proofs.C19Exchange
 import OFV.Proofs.C19OneNormId
+import OFV.Proofs.C19Exact0
 import OFV.Proofs.C19Mono
 
 namespace OFV.C19
@@ -342,5 +343,37 @@ theorem lambda_norm_spec_flat (const : GQ) (T V : List (List Rat))
   exact (lambda_norm_spec Generated.eqTolerance T.length const _ _ T V rfl
     (fun p q hp hq => OFV.C19Jw.get1_flatReal T.length T p q hp hq) (fun p q hp hq => OFV.C19Jw.get1_flatReal T.length V p q hp hq)
     symT symV hok).1
+
+/-! ### the oracle statements without the exact-run hypothesis
+
+The statements below do not mention the deletion threshold of `+=`: the Model image of the Jordan-Wigner transform is
+only the witness of a Pauli form in the proofs, and with threshold `0` every `+=` is exact (`jwDCHOk 0 … = true`), so
+the hypothesis `jwDCHOk` of `lambda_norm_oracle`, `one_norm_spec_partial`, `one_norm_int_spec_partial` disappears. -/
+
+/-- **`lambda_norm` = Spec oracle, ALL real symmetric inputs, no side condition**: for every list of rows `T`, `V`
+with `T[q][p] = T[p][q]`, `V[q][p] = V[p][q]` (indices below `len T`; rows of any length, missing entries read as 0) and
+every constant, the Model of `lambda_norm` is the 1-norm of the non-identity coefficients of the Pauli decomposition of
+`const + Σ T_pq a†_p a_q + Σ V_pq n_p n_q`, as computed by the Spec oracle from the ladder action on all Fock states. -/
+theorem lambda_norm_oracle_all (const : GQ) (T V : List (List Rat))
+    (symT : ∀ p q, p < T.length → q < T.length → mat T q p = mat T p q)
+    (symV : ∀ p q, p < T.length → q < T.length → mat V q p = mat V p q) :
+    jwOneNorm T.length (Spec.C04.dchOp T.length const (flatReal T.length T) (flatReal T.length V)) false
+      = some (lambdaNorm T V) :=
+  lambda_norm_oracle 0 T.length const _ _ T V rfl
+    (fun p q hp hq => OFV.C19Jw.get1_flatReal T.length T p q hp hq)
+    (fun p q hp hq => OFV.C19Jw.get1_flatReal T.length V p q hp hq) symT symV
+    (OFV.C19Jw.jwDCHOk_zero _ _ _ _)
+
+/-- **`get_one_norm_int_woconst` and `get_one_norm_int` = Spec oracle without / with the identity, no side
+condition**, every number of orbitals, every real symmetric `h`, every Coulomb-type `g` (see `one_norm_spec_partial`
+for the class and for what is missing towards general integrals). -/
+theorem one_norm_spec_partial_all (const : Rat) (h : List (List Rat)) (g : List (List (List (List Rat))))
+    (hsupp : ∀ p q r s, ¬ (s = p ∧ r = q) → m4 g p q r s = 0)
+    (symH : ∀ p q, p < h.length → q < h.length → m2 h q p = m2 h p q)
+    (symJ : ∀ p q, p < h.length → q < h.length → m4 g q p p q = m4 g p q q p) :
+    jwOneNorm (2 * h.length) (molOp h.length const h g) false = some (oneNormWoConst h g)
+    ∧ jwOneNorm (2 * h.length) (molOp h.length const h g) true = some (oneNorm const h g) :=
+  ⟨one_norm_spec_partial 0 h.length const h g rfl hsupp symH symJ (OFV.C19Jw.jwDCHOk_zero _ _ _ _),
+   one_norm_int_spec_partial 0 h.length const h g rfl hsupp symH symJ (OFV.C19Jw.jwDCHOk_zero _ _ _ _)⟩
 
 end OFV.C19
